@@ -1,7 +1,7 @@
 """C08 — Fourier filter splits the data exactly, removes only low-r signal (real code)."""
 import numpy as np
 import impl, cases
-from .common import tolist, Unchanged, exceeds
+from .common import tolist, Unchanged, exceeds, confusable
 from .c02 import weights
 
 LEAN = "PystogVerif.Props.C08"
@@ -99,6 +99,23 @@ def evaluate(case):
         fails.append(f"{name}: after the g(r) array was refilled in place with other data, the same filter object returns something else than a "
                      "new object does for those data (a result of the previous call was reused)")
         return fails
+    # a filter object that first served a data set on look-alike grids (same number of points, same first and last point, other points in
+    # between — a non-uniform re-binning of the same range) answers the present call like a new object
+    r2, q2 = confusable(r), confusable(q)
+    if (r2 is not None or q2 is not None) and len(r) <= 300 and len(q) <= 300:
+        with np.errstate(all="ignore"):
+            used = type(ff)()
+            try:
+                getattr(used, name)(r if r2 is None else r2, gr.copy(), q if q2 is None else q2, fq.copy(), cutoff, dgr, dfq, **kw)
+            except Exception:  # noqa: BLE001
+                pass
+            got = getattr(used, name)(r.copy(), gr.copy(), q.copy(), fq.copy(), cutoff, dgr, dfq, **kw)
+            ref9 = getattr(type(ff)(), name)(r.copy(), gr.copy(), q.copy(), fq.copy(), cutoff, dgr, dfq, **kw)
+        if not all(np.array_equal(np.asarray(a), np.asarray(b), equal_nan=True) for a, b in zip(ref9, got)):
+            k9 = [i for i, (a, b) in enumerate(zip(ref9, got)) if not np.array_equal(np.asarray(a), np.asarray(b), equal_nan=True)]
+            fails.append(f"{name}: outputs {k9} depend on an earlier call of the same filter object on grids with the same length and end points "
+                         "but other interior points (a sine table / factor of the earlier grids was reused)")
+            return fails
     t = kw["<b_tot^2>"]
     # for S, F_K, DCS the value at Q=0 is the conventional one (C03): additivity is judged where Q>0
     pos = q > 1e-100 if Y != "F" else np.ones_like(q, dtype=bool)
